@@ -78,19 +78,75 @@ Num(l, i, n) == IF n = 0 THEN 0 ELSE Num(l, i, n - 1) * 10 + DigVal(l[i + n - 1]
 \* blocks and frames share one record shape
 \*  k: doc quote list item para h hr fence icode html | a, b: numbers | m: marker character
 \*  ch: finished children | text: lines of text / code | s, e: first and last source line
-Blk(k, n) == [k |-> k, ch |-> <<>>, text |-> <<>>, a |-> 0, b |-> 0, m |-> "", info |-> <<>>, s |-> n, e |-> n]
+Blk(k, n) == [k |-> k, ch |-> <<>>, text |-> <<>>, a |-> 0, b |-> 0, m |-> "", info |-> <<>>, defs |-> <<>>, s |-> n, e |-> n]
 Containers == {"doc", "quote", "list", "item"}
 Top(st) == st[Len(st)]
 
 RECURSIVE DropBlankTail(_)
 DropBlankTail(t) == IF t # <<>> /\ t[Len(t)] = <<>> THEN DropBlankTail(SubSeq(t, 1, Len(t) - 1)) ELSE t
 
-\* finalisation: a container ends where its last child ends; an indented code block loses its trailing blank lines
+\* 4.7 link reference definitions at the beginning of a paragraph's text (lines without their leading
+\* white space): "[label]:" destination [title], the destination on the same or on the next line,
+\* the title on the line of the destination or alone on the next one; nothing else on the last line.
+TokLen(l, i) == LET RECURSIVE W(_)
+                    W(k) == IF At(l, k) \in Sp \cup {"$"} THEN 0 ELSE 1 + W(k + 1)
+                IN W(i)
+\* position of the "]" that closes a label opened at 1, or 0
+LabelEnd(l) == IF At(l, 1) # "[" THEN 0
+               ELSE LET cands == {k \in 3..Len(l) : l[k] = "]" /\ \A x \in 2..(k - 1) : l[x] \notin {"[", "]"}} IN
+                    IF cands = {} THEN 0 ELSE CHOOSE k \in cands : \A y \in cands : k <= y
+\* a title that fills the rest of the line from i: 't'
+TitleAt(l, i) == IF At(l, i) = "'" THEN
+                   LET cands == {k \in (i + 1)..Len(l) : l[k] = "'"} IN
+                   IF cands = {} THEN <<FALSE, <<>>>>
+                   ELSE LET k == CHOOSE x \in cands : \A y \in cands : x <= y IN
+                        IF Blank(l, k + 1) THEN <<TRUE, SubSeq(l, i + 1, k - 1)>> ELSE <<FALSE, <<>>>>
+                 ELSE <<FALSE, <<>>>>
+\* destination (and title) from position i of line n of t; [ok, used = number of lines consumed from line n on, dest, title]
+DestFrom(t, n, i) ==
+  LET l == t[n]
+      j == i + Ind(l, i)
+      w == TokLen(l, j)
+      dest == SubSeq(l, j, j + w - 1)
+      k == j + w + Ind(l, j + w)
+      No == [ok |-> FALSE, used |-> 0, dest |-> <<>>, title |-> <<>>]
+  IN IF w = 0 \/ At(l, j) = "<" THEN No
+     ELSE IF k > Len(l)                                       \* the destination ends its line
+          THEN IF n < Len(t) /\ TitleAt(t[n + 1], 1 + Ind(t[n + 1], 1))[1]
+               THEN [ok |-> TRUE, used |-> 2, dest |-> dest, title |-> TitleAt(t[n + 1], 1 + Ind(t[n + 1], 1))[2]]
+               ELSE [ok |-> TRUE, used |-> 1, dest |-> dest, title |-> <<>>]
+          ELSE IF Ind(l, j + w) >= 1 /\ TitleAt(l, k)[1] THEN [ok |-> TRUE, used |-> 1, dest |-> dest, title |-> TitleAt(l, k)[2]]
+          ELSE No
+RECURSIVE StripDefs(_)
+StripDefs(t) ==
+  IF t = <<>> THEN [defs |-> <<>>, rest |-> <<>>]
+  ELSE LET l == t[1]
+           e == LabelEnd(l)
+           stop == [defs |-> <<>>, rest |-> t]
+       IN IF e = 0 \/ At(l, e + 1) # ":" \/ \A x \in 2..(e - 1) : l[x] \in Sp THEN stop
+          ELSE LET label == SubSeq(l, 2, e - 1)
+                   d == IF Blank(l, e + 2)
+                        THEN (IF Len(t) >= 2 THEN LET d2 == DestFrom(t, 2, 1) IN [d2 EXCEPT !.used = IF d2.ok THEN @ + 1 ELSE 0]
+                              ELSE [ok |-> FALSE, used |-> 0, dest |-> <<>>, title |-> <<>>])
+                        ELSE DestFrom(t, 1, e + 2)
+               IN IF ~d.ok THEN stop
+                  ELSE LET more == StripDefs(SubSeq(t, d.used + 1, Len(t))) IN
+                       [defs |-> <<[label |-> label, dest |-> d.dest, title |-> d.title]>> \o more.defs, rest |-> more.rest]
+
+\* finalisation: a container ends where its last child ends; an indented code block loses its trailing
+\* blank lines; a paragraph loses its leading link reference definitions
 Fin(f) == IF f.k \in Containers /\ f.ch # <<>> THEN [f EXCEPT !.e = Max(f.e, f.ch[Len(f.ch)].e)]
           ELSE IF f.k = "icode" THEN [f EXCEPT !.text = DropBlankTail(f.text)]
+          ELSE IF f.k = "para" THEN LET r == StripDefs(f.text) IN [f EXCEPT !.text = r.rest, !.defs = @ \o r.defs]
           ELSE f
-Pop(st) == LET n == Len(st) IN
-  [i \in 1..(n - 1) |-> IF i = n - 1 THEN [st[i] EXCEPT !.ch = Append(@, Fin(st[n]))] ELSE st[i]]
+\* closing the innermost open block: it joins its parent's children (a paragraph that consisted of
+\* definitions only disappears) and hands the definitions found in it upwards, in document order
+Pop(st) == LET n == Len(st)
+               f == Fin(st[n])
+           IN [i \in 1..(n - 1) |->
+                 IF i = n - 1 THEN [st[i] EXCEPT !.ch = IF f.k = "para" /\ f.text = <<>> THEN @ ELSE Append(@, [f EXCEPT !.defs = <<>>]),
+                                                 !.defs = @ \o f.defs]
+                 ELSE st[i]]
 RECURSIVE CloseTo(_, _)
 CloseTo(st, m) == IF Len(st) > m THEN CloseTo(Pop(st), m) ELSE st
 CanContain(pk, ck) == IF pk = "list" THEN ck = "item" ELSE pk \in {"doc", "quote", "item"} /\ ck # "item"
@@ -212,8 +268,10 @@ Starts(c, l, n) ==
        LET blk == [Blk("html", n) EXCEPT !.a = ht, !.text = <<Rest(l, pos)>>, !.b = IF ht <= 5 /\ HtmlEnds(l, j, ht) THEN 1 ELSE 0]
            st2 == Push(closed, blk)
        IN [c EXCEPT !.st = IF blk.b = 1 THEN Pop(st2) ELSE st2, !.done = TRUE]
-  ELSE IF contK = "para" /\ IsSetextLine(l, j) THEN          \* 4.3: only a paragraph that continues (not a lazy one)
-       [c EXCEPT !.st = Pop(SetTop(c.st, [Top(c.st) EXCEPT !.k = "h", !.a = IF x = "=" THEN 1 ELSE 2, !.e = n])), !.done = TRUE]
+  ELSE IF contK = "para" /\ IsSetextLine(l, j) /\ StripDefs(Top(c.st).text).rest # <<>> THEN
+       \* 4.3: only a paragraph that continues (not a lazy one), and not one that consists of link reference definitions only
+       LET r == StripDefs(Top(c.st).text) IN
+       [c EXCEPT !.st = Pop(SetTop(c.st, [Top(c.st) EXCEPT !.k = "h", !.a = IF x = "=" THEN 1 ELSE 2, !.e = n, !.text = r.rest, !.defs = @ \o r.defs])), !.done = TRUE]
   ELSE IF IsHr(l, j) THEN                                    \* 4.1
        [c EXCEPT !.st = Pop(Push(closed, Blk("hr", n))), !.done = TRUE]
   ELSE IF (isBullet \/ isOrd) /\ At(l, after) \in Sp \cup {"$"}
@@ -273,8 +331,22 @@ RECURSIVE Join(_)
 Join(ss) == IF ss = <<>> THEN "" ELSE Head(ss) \o Join(Tail(ss))
 Esc(c) == CASE c = ">" -> "&gt;" [] c = "<" -> "&lt;" [] c = "&" -> "&amp;" [] c = "\"" -> "&quot;" [] OTHER -> c
 EscLine(cells) == LET l == Unexpand(cells) IN Join([i \in 1..Len(l) |-> Esc(l[i])])
-RECURSIVE JoinLines(_)
-JoinLines(t) == IF t = <<>> THEN "" ELSE IF Len(t) = 1 THEN EscLine(t[1]) ELSE EscLine(t[1]) \o "\n" \o JoinLines(Tail(t))
+\* inline content: text, and shortcut reference links [label] for the labels defined in the document
+\* (6.3; the first definition of a label wins)
+Defined(refs, label) == \E k \in 1..Len(refs) : refs[k].label = label
+RefOf(refs, label) == refs[CHOOSE k \in 1..Len(refs) : refs[k].label = label /\ \A y \in 1..(k - 1) : refs[y].label # label]
+RECURSIVE InlineFrom(_, _, _)
+InlineFrom(l, i, refs) ==
+  IF i > Len(l) THEN ""
+  ELSE LET e == LabelEnd(Rest(l, i)) IN
+       IF l[i] = "[" /\ e > 0 /\ Defined(refs, SubSeq(l, i + 1, i + e - 2)) /\ At(l, i + e) \notin {"[", "("}
+       THEN LET rf == RefOf(refs, SubSeq(l, i + 1, i + e - 2)) IN
+            "<a href=\"" \o EscLine(rf.dest) \o "\"" \o (IF rf.title = <<>> THEN "" ELSE " title=\"" \o EscLine(rf.title) \o "\"") \o ">"
+            \o EscLine(rf.label) \o "</a>" \o InlineFrom(l, i + e, refs)
+       ELSE Esc(l[i]) \o InlineFrom(l, i + 1, refs)
+InlineLine(cells, refs) == InlineFrom(Unexpand(cells), 1, refs)
+RECURSIVE JoinLines(_, _)
+JoinLines(t, refs) == IF t = <<>> THEN "" ELSE IF Len(t) = 1 THEN InlineLine(t[1], refs) ELSE InlineLine(t[1], refs) \o "\n" \o JoinLines(Tail(t), refs)
 RECURSIVE CodeLines(_)
 CodeLines(t) == IF t = <<>> THEN "" ELSE EscLine(Head(t)) \o "\n" \o CodeLines(Tail(t))
 RECURSIVE RawLines(_)
@@ -295,40 +367,47 @@ CR == [s |-> "", cr |-> TRUE]
 P(str) == [s |-> str, cr |-> FALSE]
 RECURSIVE Flat(_)
 Flat(ss) == IF ss = <<>> THEN <<>> ELSE Head(ss) \o Flat(Tail(ss))
-RECURSIVE Html(_, _)
-HtmlBlk(b, tight) ==
-  CASE b.k = "para" -> IF tight THEN <<P(JoinLines(b.text))>> ELSE <<CR, P("<p>" \o JoinLines(b.text) \o "</p>"), CR>>
-    [] b.k = "h" -> <<CR, P("<h" \o DigStr(b.a) \o ">" \o JoinLines(b.text) \o "</h" \o DigStr(b.a) \o ">"), CR>>
+RECURSIVE Html(_, _, _)
+HtmlBlk(b, tight, refs) ==
+  CASE b.k = "para" -> IF tight THEN <<P(JoinLines(b.text, refs))>> ELSE <<CR, P("<p>" \o JoinLines(b.text, refs) \o "</p>"), CR>>
+    [] b.k = "h" -> <<CR, P("<h" \o DigStr(b.a) \o ">" \o JoinLines(b.text, refs) \o "</h" \o DigStr(b.a) \o ">"), CR>>
     [] b.k = "hr" -> <<CR, P("<hr />"), CR>>
     [] b.k = "icode" -> <<CR, P("<pre><code>" \o CodeLines(b.text) \o "</code></pre>"), CR>>
     [] b.k = "fence" -> <<CR, P((IF b.info = <<>> THEN "<pre><code>" ELSE "<pre><code class=\"language-" \o EscLine(FirstWord(b.info)) \o "\">")
                          \o CodeLines(b.text) \o "</code></pre>"), CR>>
     [] b.k = "html" -> <<CR, P(RawLines(b.text)), CR>>
-    [] b.k = "quote" -> <<CR, P("<blockquote>"), CR>> \o Html(b.ch, FALSE) \o <<CR, P("</blockquote>"), CR>>
+    [] b.k = "quote" -> <<CR, P("<blockquote>"), CR>> \o Html(b.ch, FALSE, refs) \o <<CR, P("</blockquote>"), CR>>
     [] b.k = "list" -> LET t == ~Loose(b)
                            open == IF b.b = 0 THEN "<ul>" ELSE IF b.a = 1 THEN "<ol>" ELSE "<ol start=\"" \o NumStr(b.a) \o "\">"
                        IN <<CR, P(open), CR>>
-                          \o Flat([i \in 1..Len(b.ch) |-> <<P("<li>")>> \o Html(b.ch[i].ch, t) \o <<P("</li>"), CR>>])
+                          \o Flat([i \in 1..Len(b.ch) |-> <<P("<li>")>> \o Html(b.ch[i].ch, t, refs) \o <<P("</li>"), CR>>])
                           \o <<CR, P(IF b.b = 0 THEN "</ul>" ELSE "</ol>"), CR>>
-Html(bs, tight) == Flat([i \in 1..Len(bs) |-> HtmlBlk(bs[i], tight)])
+Html(bs, tight, refs) == Flat([i \in 1..Len(bs) |-> HtmlBlk(bs[i], tight, refs)])
 \* pieces -> text; nl = the text so far ends in a line ending (or is empty)
 RECURSIVE Out(_, _)
 Out(ps, nl) == IF ps = <<>> THEN ""
                ELSE IF Head(ps).cr THEN (IF nl THEN "" ELSE "\n") \o Out(Tail(ps), TRUE)
                ELSE Head(ps).s \o Out(Tail(ps), IF Head(ps).s = "" THEN nl ELSE FALSE)
-Render(d) == Out(Html(d.ch, FALSE), TRUE)
+Render(d) == Out(Html(d.ch, FALSE, d.defs), TRUE)   \* d.defs: every definition of the document, in document order
 
 \* paragraph or heading text that the inline rules would not leave literal: two backtick runs in one text
 RECURSIVE Ambig(_)
 Ambig(bs) == \E i \in 1..Len(bs) :
    \/ bs[i].k \in {"para", "h"} /\ Cardinality({x \in 1..Len(bs[i].text) : \E y \in 1..Len(bs[i].text[x]) : bs[i].text[x][y] = "`"}) >= 2
-   \/ bs[i].k \in {"para", "h"} /\ \E x \in 1..Len(bs[i].text) : \E y \in 1..Len(bs[i].text[x]) : bs[i].text[x][y] \in {"*", "_", "<", "&", "[", "\\"}
+   \/ bs[i].k \in {"para", "h"} /\ \E x \in 1..Len(bs[i].text) : \E y \in 1..Len(bs[i].text[x]) : bs[i].text[x][y] \in {"*", "_", "<", "&", "\\", "!"}
    \/ bs[i].k = "html" /\ bs[i].a <= 5 /\ bs[i].b = 0 /\ bs[i].text[Len(bs[i].text)] = <<>>   \* unclosed, ends in a blank line: the reference implementations disagree on looseness
    \/ bs[i].k \in Containers /\ Ambig(bs[i].ch)
 
 ----------------------------------------------------------------------------
 \* line alphabets: pieces are concatenated (prefix, prefix, body); no line ends in a space
 Tab == <<"\t">>
+DefA == <<"[", "a", "]", ":", " ", "/", "u">>
+DefA2 == <<"[", "a", "]", ":", " ", "/", "v">>
+DefB == <<"[", "b", "]", ":", " ", "/", "w">>
+LabA == <<"[", "a", "]", ":">>
+DestU == <<"/", "u">>
+TitleT == <<"'", "t", "'">>
+UseA == <<"[", "a", "]">>
 S1 == <<" ">>
 S2 == <<" ", " ">>
 S3 == <<" ", " ", " ">>
@@ -373,6 +452,7 @@ Alphabet ==
     [] AlphaName = "tabs"  -> NoTrail(Cat({<<>>, Gt, GtS, Bul, BulBare, Ord, S1, S2}, {<<>>, Tab, Tab \o Tab, S1 \o Tab, S2 \o Tab},
                                           {<<>>, Wa, Bul \o Wa, BulBare \o Tab \o Wa, Dash3, Fence, HashA, <<"#">> \o Tab \o Wa, Gt \o Wa, Ord \o Wa, <<"1", ".">> \o Tab \o Wa, Tab \o Wa}))
     [] AlphaName = "tabs2" -> NoTrail(Cat({<<>>, GtS, Bul, Bul \o Bul, S2}, {<<>>, Tab, S1 \o Tab, S3 \o Tab, Tab \o S1}, {<<>>, Wa, Bul \o Wa, BulBare \o Tab \o Wa, Fence, Tab \o Wa, Gt \o Tab \o Wa}))
+    [] AlphaName = "refs"  -> NoTrail(Cat({<<>>}, {<<>>, GtS, Bul, S2, S4}, {<<>>, Wa, DefA, DefA2, LabA, DestU, TitleT, UseA, Eq3, Dash3, HashA \o S1 \o UseA, DefB \o S1 \o TitleT}))
     [] AlphaName = "wide"  -> NoTrail(Cat({<<>>, Gt, GtS, Bul, Ord, S2, S3, S4}, {<<>>, Gt, GtS, Bul, Plus, Ord, Ord2, S1, S2, S4},
                                           {<<>>, Wa, Dash3, Eq3, Hash, HashA, Fence, Tilde, FenceInfo, BulBare}))
                               \cup {BulWide, Bul2 \o Wa, OrdP \o Wa}
